@@ -124,6 +124,9 @@ macro_rules! drive_dimacs {
 }
 drive_dimacs!(drive_cnf, cnf, i32, false, |c: &&[i32]| format!("{:?}", c), |w: &mut DeferredWriter, c: &&[i32]| flussab_cnf::cnf::write_clause(w, c));
 drive_dimacs!(drive_cnf_ign, cnf, i8, true, |c: &&[i8]| format!("{:?}", c), |w: &mut DeferredWriter, c: &&[i8]| flussab_cnf::cnf::write_clause(w, c));
+drive_dimacs!(drive_cnf_ign32, cnf, i32, true, |c: &&[i32]| format!("{:?}", c), |w: &mut DeferredWriter, c: &&[i32]| flussab_cnf::cnf::write_clause(w, c));
+drive_dimacs!(drive_wcnf_ign, wcnf, isize, true, |c: &(u64, &[isize])| format!("{:?}", c), |w: &mut DeferredWriter, c: &(u64, &[isize])| flussab_cnf::wcnf::write_clause(w, c.0, c.1));
+drive_dimacs!(drive_gcnf_ign, gcnf, i16, true, |c: &(usize, &[i16])| format!("{:?}", c), |w: &mut DeferredWriter, c: &(usize, &[i16])| flussab_cnf::gcnf::write_clause(w, c.0, c.1));
 drive_dimacs!(drive_wcnf, wcnf, isize, false, |c: &(u64, &[isize])| format!("{:?}", c), |w: &mut DeferredWriter, c: &(u64, &[isize])| flussab_cnf::wcnf::write_clause(w, c.0, c.1));
 drive_dimacs!(drive_gcnf, gcnf, i16, false, |c: &(usize, &[i16])| format!("{:?}", c), |w: &mut DeferredWriter, c: &(usize, &[i16])| flussab_cnf::gcnf::write_clause(w, c.0, c.1));
 
@@ -576,6 +579,9 @@ pub const FORMATS: &[Fmt] = &[
     Fmt { name: "cnf8", drive: drive_cnf_ign, tokens: CNF8_TOKENS, docs: CNF8_DOCS, text: true, streaming: true, item_roundtrip: false, has_writer: true },
     Fmt { name: "wcnf", drive: drive_wcnf, tokens: WCNF_TOKENS, docs: WCNF_DOCS, text: true, streaming: true, item_roundtrip: false, has_writer: true },
     Fmt { name: "gcnf", drive: drive_gcnf, tokens: GCNF_TOKENS, docs: GCNF_DOCS, text: true, streaming: true, item_roundtrip: false, has_writer: true },
+    Fmt { name: "cnf_ign", drive: drive_cnf_ign32, tokens: CNF_TOKENS, docs: CNF_DOCS, text: true, streaming: true, item_roundtrip: false, has_writer: true },
+    Fmt { name: "wcnf_ign", drive: drive_wcnf_ign, tokens: WCNF_TOKENS, docs: WCNF_DOCS, text: true, streaming: true, item_roundtrip: false, has_writer: true },
+    Fmt { name: "gcnf_ign", drive: drive_gcnf_ign, tokens: GCNF_TOKENS, docs: GCNF_DOCS, text: true, streaming: true, item_roundtrip: false, has_writer: true },
     Fmt { name: "satlog", drive: drive_satlog, tokens: SATLOG_TOKENS, docs: SATLOG_DOCS, text: true, streaming: false, item_roundtrip: false, has_writer: false },
     Fmt { name: "satlog_ign", drive: drive_satlog_ign, tokens: SATLOG_TOKENS, docs: SATLOG_DOCS, text: true, streaming: false, item_roundtrip: false, has_writer: false },
     Fmt { name: "aag", drive: drive_aag, tokens: AAG_TOKENS, docs: AAG_DOCS, text: true, streaming: false, item_roundtrip: false, has_writer: true },
